@@ -504,6 +504,7 @@ def removeEmptyBlocks (f : Func) : R Func :=
 /-- `find_single_predecessor_block` -/
 def findSinglePred (f : Func) : Option (String × String) :=
   f.blocks.findSome? fun b =>
+    if b.name = f.entry then none else      -- the entry block is never glued into a predecessor
     match f.preds b.name with
     | [p] =>
       if p = b.name then none else
